@@ -144,7 +144,15 @@ def check_instance(part, j, key, case, feat, collect):
         except harness.lib_errors() as e:
             part.outcome("refused")
             if form == "constructor":
-                return            # not constructible: C03's business
+                # not constructible: C03's business - unless the same content WITH an identifier is accepted, i.e. it is the id generation that fails
+                try:
+                    stix2.parse(dict(j, id="%s--3f7f0c5f-5d54-4292-94ea-ec1e1952be01" % j["type"], spec_version="2.1"), allow_custom=False)
+                except Exception:
+                    return
+                part.outcome("id-generation-refused")
+                part.violation("C06/id-generation-refuses-valid-content", "content that is accepted with an explicit identifier is refused when the identifier has to be generated", c,
+                               "an object with a generated id", "%s: %s" % (type(e).__name__, str(e)[:120]))
+                return
             part.violation("C06/form-refused/%s" % form.split("(")[0], "content accepted by the constructor is refused by another entry form", c, "accepted", "%s: %s" % (type(e).__name__, str(e)[:120]))
             continue
         ser = json.loads(obj.serialize())
